@@ -120,8 +120,19 @@ pub fn verify_presentation(
             )?;
         }
 
+        let sub_proof = presentation
+            .proof
+            .proofs
+            .get(sub_proof_index)
+            .ok_or_else(|| {
+                err_msg!(
+                    ProofRejected,
+                    "CryptoProof not found by index \"{}\"",
+                    sub_proof_index
+                )
+            })?;
         proof_verifier.add_sub_proof(
-            &presentation.proof.proofs[sub_proof_index],
+            sub_proof,
             &identifier.schema_id,
             &identifier.cred_def_id,
             identifier.rev_reg_id.as_ref(),
@@ -502,7 +513,10 @@ pub(crate) fn verify_requested_restrictions(
                 let attr_info = requested_proof.revealed_attrs.get(attr_referent).unwrap();
                 let attr_sub_proof_index = attr_info.sub_proof_index;
                 if pred_sub_proof_index == attr_sub_proof_index {
-                    let attr_name = requested_attrs.get(attr_referent).unwrap().name.clone();
+                    // a referent that is (also) self-attested is not among `requested_attrs`
+                    let attr_name = requested_attrs
+                        .get(attr_referent)
+                        .and_then(|info| info.name.clone());
                     if let Some(name) = attr_name {
                         attr_value_map.insert(name, Some(attr_info.raw.clone()));
                     }
